@@ -222,7 +222,7 @@ def run(ctx):
                 docs.append(("probe", mappyfile.loads(t, include_position=pos), "map", []))
             except Exception:  # noqa
                 pass
-    n_valid = ctx.budget(50, 800)
+    n_valid = ctx.budget(40, 800)
     for i in range(n_valid):
         try:
             docs.append(("valid", gen.document(), "map", []))
@@ -234,7 +234,7 @@ def run(ctx):
                 docs.append(("valid-root", gen.value(raw[t + ".json"], 2), t, []))
             except vg.GenFail:
                 pass
-    n_fault = ctx.budget(220, 3000)
+    n_fault = ctx.budget(150, 3000)
     for i in range(n_fault):
         try:
             d = gen.document()
@@ -255,7 +255,7 @@ def run(ctx):
                 docs.append((lab + "+pos", d2, nm, []))
     files = corpus_files()
     if ctx.quick():
-        files = rng.sample(files, min(len(files), 45))
+        files = rng.sample(files, min(len(files), 35))
     n_unparse = 0
     for fn in files:
         try:
